@@ -409,6 +409,10 @@ def aggregate(mod, prop, tier, seed, results, shard_problems, wall, ncases):
         print("  counters: " + json.dumps(extra, sort_keys=True))
     for ln in lines:
         print(ln)
+    if inconcl:
+        print("  note: %d inconclusive case(s) (not counted), first: idx=%s %s" % (len(inconcl), inconcl[0][0], inconcl[0][1][:700].replace("\n", " | ")))
+    if skipped:
+        print("  note: %d case(s) skipped at the deadline" % skipped)
     if status == "violated":
         return 1
     if status == "inconclusive":
